@@ -550,6 +550,119 @@ mod sd {
         }
     }
 
+    // ---- C17: a SeqAccess with a lying size_hint (and injected errors) driven into visit_seq
+    use serde::de::{DeserializeSeed, Deserializer, IntoDeserializer, SeqAccess, Visitor};
+    use serde::Deserialize;
+
+    pub struct LyingSeq {
+        n: usize,
+        i: usize,
+        hint: Option<usize>,
+        fail_at: Option<usize>,
+    }
+    impl<'de> SeqAccess<'de> for LyingSeq {
+        type Error = serde::de::value::Error;
+        fn next_element_seed<T: DeserializeSeed<'de>>(&mut self, seed: T) -> Result<Option<T::Value>, Self::Error> {
+            if Some(self.i) == self.fail_at {
+                return Err(serde::de::Error::custom("injected element error"));
+            }
+            if self.i < self.n {
+                self.i += 1;
+                seed.deserialize((self.i as u8).into_deserializer()).map(Some)
+            } else {
+                Ok(None)
+            }
+        }
+        fn size_hint(&self) -> Option<usize> {
+            self.hint
+        }
+    }
+    pub struct LyingDe(LyingSeq);
+    impl<'de> Deserializer<'de> for LyingDe {
+        type Error = serde::de::value::Error;
+        fn deserialize_any<V: Visitor<'de>>(self, v: V) -> Result<V::Value, Self::Error> {
+            v.visit_seq(self.0)
+        }
+        serde::forward_to_deserialize_any! {
+            bool i8 i16 i32 i64 i128 u8 u16 u32 u64 u128 f32 f64 char str string bytes byte_buf option unit
+            unit_struct newtype_struct seq tuple tuple_struct map struct enum identifier ignored_any
+        }
+    }
+
+    pub fn run_lie(a: &Args, o: &mut Obs) {
+        let seed = a.u64("seed", 1);
+        let shard = a.usize("shard", 0);
+        let nshards = a.usize("nshards", 1).max(1);
+        let mut k = 0usize;
+        #[cfg(feature = "ledger")]
+        let mut tag = 7000u32;
+        vharness::util::warm_up();
+        for &n in &[0usize, 1, 5, 4095, 4096, 4097, 9000 + (seed as usize % 100)] {
+            for hint in [None, Some(0), Some(1), Some(n), Some(n + 7), Some(n / 2), Some(4097), Some(usize::MAX), Some(isize::MAX as usize)] {
+                for fail_at in [None, Some(0), Some(n / 2), Some(n)] {
+                    for ty in 0..2 {
+                        k += 1;
+                        if k % nshards != shard {
+                            continue;
+                        }
+                        let case = format!("flt:serde:{k}");
+                        #[cfg(feature = "ledger")]
+                        {
+                            tag += 1;
+                            vharness::ledger::scope_enter(tag);
+                        }
+                        let r = util::catch(|| {
+                            let de = LyingDe(LyingSeq { n, i: 0, hint, fail_at });
+                            if ty == 0 {
+                                Bytes::deserialize(de).map(|b| b.to_vec())
+                            } else {
+                                BytesMut::deserialize(de).map(|b| b.to_vec())
+                            }
+                        });
+                        let want: Vec<u8> = (1..=n).map(|i| i as u8).collect();
+                        let outcome = match &r {
+                            Ok(Ok(v)) => {
+                                if fail_at.map(|f| f < n).unwrap_or(false) || *v != want {
+                                    // wrong data is allowed by C17, but it is a C15 matter if no error was injected
+                                    if fail_at.is_none() {
+                                        o.viol("C15", "serde-seq-lying-hint-wrong-data", &case, &format!("visit_seq with n={n} hint={hint:?} produced {} bytes", v.len()));
+                                    }
+                                }
+                                "ok"
+                            }
+                            Ok(Err(_)) => "err",
+                            Err(_) => "panic",
+                        };
+                        drop(r);
+                        drop(want);
+                        #[cfg(feature = "ledger")]
+                        {
+                            vharness::ledger::scope_exit();
+                            vharness::ledger::sweep(true);
+                            for v in vharness::ledger::take_violations() {
+                                o.viol("C17", &format!("ledger-{:?}:serde-visit_seq", v.kind), &case, &format!("{} with n={n} hint={hint:?} fail_at={fail_at:?}", vharness::ledger::describe(&v)));
+                            }
+                            let (c, b) = vharness::ledger::tagged_live(tag);
+                            o.inc("balance_checks");
+                            if c != 0 {
+                                o.viol("C17", "leak:serde-visit_seq", &case, &format!("{c} block(s) / {b} bytes live after visit_seq with n={n} hint={hint:?} fail_at={fail_at:?}"));
+                            }
+                            vharness::ledger::flush_quarantine();
+                        }
+                        o.inc("fault_cases");
+                        o.cell(format!("fault|serde-visit_seq|{outcome}|hint{}|n{}", match hint {
+                            None => "none",
+                            Some(h) if h == n => "exact",
+                            Some(h) if h > n => "over",
+                            _ => "under",
+                        }, if n > 4096 { ">4096" } else { "<=4096" }));
+                    }
+                }
+            }
+        }
+        o.sample("serde visit_seq driven by a SeqAccess with n=4097 elements and size_hint Some(usize::MAX) / Some(0) / None, optionally failing at element n/2, into Bytes and BytesMut".to_string());
+    }
+
     pub fn run(a: &Args, o: &mut Obs) {
         let seed = a.u64("seed", 1);
         let shard = a.usize("shard", 0);
@@ -611,6 +724,8 @@ fn main() {
         "fmt" => run_fmt(&a, &mut o),
         #[cfg(feature = "serde")]
         "serde" => sd::run(&a, &mut o),
+        #[cfg(feature = "serde")]
+        "serdelie" => sd::run_lie(&a, &mut o),
         m => {
             eprintln!("unknown / unavailable mode {m}");
             std::process::exit(2);
